@@ -138,6 +138,20 @@ pub fn reps(name: &str) -> Vec<Vec<A>> {
         "String.to_lowercase" | "String.to_uppercase" => crate::unicode::case_strings().into_iter().map(|s| vec![A::S(s)]).collect(),
         // every White_Space code point and its look-alikes at both ends
         "String.trim" | "String.trim_start" | "String.trim_end" => crate::unicode::ws_strings().into_iter().map(|s| vec![A::S(s)]).collect(),
+        // comparisons are by code point sequence: pairs that are canonically / compatibility / case-insensitively
+        // equivalent, or differ by an invisible char, must NOT be identified (both orders, bare and embedded)
+        "String.eq" | "String.contains" | "String.starts_with" | "String.ends_with" | "String.strip_prefix" | "String.strip_suffix" | "String.split" => {
+            let mut out = vec![];
+            for (a, b) in crate::unicode::NEAR_EQUAL {
+                for (x, y) in [(a, b), (b, a)] {
+                    out.push(vec![A::S(x.to_string()), A::S(y.to_string())]);
+                    out.push(vec![A::S(format!("p{x}q{x}")), A::S(y.to_string())]);
+                    out.push(vec![A::S(format!("{x}q")), A::S(y.to_string())]);
+                    out.push(vec![A::S(format!("p{x}")), A::S(y.to_string())]);
+                }
+            }
+            out
+        }
         // IEEE special values x special values: a fast path keyed on one exponent/base value lives in one cell of this grid
         "f64.pow" => {
             let t = FLOAT_GRID;
